@@ -9,8 +9,8 @@ Definition bsp : byte := " "%byte.
 
 Fixpoint split_on (sep : byte) (s : list byte) (cur : list byte) : list (list byte) :=
   match s with
-  | [] => [rev cur]
-  | c :: r => if Byte.eqb c sep then rev cur :: split_on sep r [] else split_on sep r (c :: cur)
+  | [] => [rev_append cur []]
+  | c :: r => if Byte.eqb c sep then rev_append cur [] :: split_on sep r [] else split_on sep r (c :: cur)
   end.
 Definition words (s : list byte) : list (list byte) :=
   filter (fun w => negb (match w with [] => true | _ => false end)) (split_on bsp s []).
